@@ -44,6 +44,8 @@ class QCircuitEnhanced(QCircuit):
         self.free_ancilla_lst = set()
         self.marked_ancillas = set()
         self.reserved_ancillas = set()
+        # names given to ancillas by add_ancilla that still denote an ancilla
+        self.ancilla_names = set()
 
     def map_qubit(self, name: Union[str, Symbol], index: int, promote=False):
         """Map a name to a qubit
@@ -69,6 +71,7 @@ class QCircuitEnhanced(QCircuit):
             except:
                 pass
 
+        self.ancilla_names.discard(name)
         self[name] = index
 
     def remove_identities(self):
@@ -97,7 +100,16 @@ class QCircuitEnhanced(QCircuit):
 
     def add_ancilla(self, name=None, is_free=True):
         """Add an ancilla qubit"""
-        i = self.add_qubit(name if name else f"anc_{len(self.ancilla_lst)}")
+        if not name:
+            # the name must not be the one of a symbol of the program (a parameter or
+            # a local variable called anc_1 would be re-bound to this qubit)
+            k = len(self.ancilla_lst)
+            name = f"anc_{k}"
+            while name in self.qubit_map and name not in self.ancilla_names:
+                k += 1
+                name = f"anc_{k}"
+            self.ancilla_names.add(name)
+        i = self.add_qubit(name)
         self.ancilla_lst.add(i)
         if is_free:
             self.free_ancilla_lst.add(i)
